@@ -19,6 +19,9 @@ KINDS = ("asynchronous", "asynchronous()", "asynchronous(executor)", "asynchrono
 SHAPES = ("f(a, b=2)", "f(*args, **kwargs)", "f(a, /, b, *, c=3)")
 
 
+_BodyMetric = None
+
+
 class C18(Prop):
     id = "C18"
     level = "exploration"
@@ -99,12 +102,26 @@ class C18(Prop):
         second_instance = bool(is_method and s.draw(2, "second-instance"))
         # the second instance may be a shallow copy of the first one (copy.copy clones its __dict__) made after the method was used
         second_is_copy = bool(second_instance and s.draw(2, "second-is-copy"))
+        # the method is overridden in a subclass (also @asynchronous); the parent's version is reached through super() first
+        inherit = bool(is_method and not second_instance and s.chance(1, 3, "overridden-in-subclass"))
         seen["receivers"] = {}
         uses_thread = kind.startswith("asynchronous")
         expect_state = {"inst": None}
 
+        from haiway import State
+
+        global _BodyMetric
+        if _BodyMetric is None:
+            class BodyMetric(State):
+                n: int = 0
+            _BodyMetric = BodyMetric
+        BodyMetric = _BodyMetric
+
         def body(args, kwargs):
             seen["calls"] += 1
+            # the function records a metric: it runs in (a copy of) the caller's context, so it lands in the caller's scope - also
+            # when the body runs on a worker thread
+            ctx.record(BodyMetric(n=1), merge=lambda lhs, rhs: BodyMetric(n=lhs.n + rhs.n))
             seen["thread"] = threading.get_ident()
             seen["args"] = (args, dict(kwargs))
             sim.event("fn-body", seen["calls"])
@@ -188,8 +205,19 @@ class C18(Prop):
             calls = [((1, 2), {}), ((1,), {"b": 4}), ((1, 2), {"c": 9})]
             bound = [((1, 2), {"c": 3}), ((1, 4), {"c": 3}), ((1, 2), {"c": 9})]
         f.__name__ = af.__name__ = m.__name__ = "fname"
+        if inherit:
+            m.__name__ = "m"  # (the usual case: the function is named like the attribute it is stored under)
         call_args, call_kwargs = calls[form]
         want_args = bound[form]
+
+        def make_child(base, decorate):
+            def override(self, *a, **k):
+                seen["override"] = seen.get("override", 0) + 1
+                return m(self, *a, **k)
+            override.__name__ = m.__name__
+            override.__doc__ = m.__doc__
+            seen["override_fn"] = override
+            return type("Child", (base,), {"m": decorate(override)})
 
         original = f
         if kind == "asynchronous":
@@ -204,6 +232,8 @@ class C18(Prop):
             original = m
             Host = type("Host", (), {"m": asynchronous(m), "__eq__": lambda a, b: type(a) is type(b),
                                      "__hash__": lambda a: 11})  # receivers are value-equal but distinct objects
+            if inherit:
+                Host = make_child(Host, asynchronous)
             first_host = Host()
             first_host.label = "first"
             wrapped = first_host.m
@@ -211,6 +241,8 @@ class C18(Prop):
             original = m
             Host = type("Host", (), {"m": asynchronous(executor=explicit_ex)(m), "__eq__": lambda a, b: type(a) is type(b),
                                      "__hash__": lambda a: 11})
+            if inherit:
+                Host = make_child(Host, asynchronous(executor=explicit_ex))
             first_host = Host()
             first_host.label = "first"
             wrapped = first_host.m
@@ -237,6 +269,20 @@ class C18(Prop):
         async def nodoc_async(x):
             return x
 
+        def multiline_sync(x):
+            """First line.
+
+                indented continuation, kept exactly as written   
+            """
+            return x
+
+        async def multiline_async(x):
+            """First line.
+
+                indented continuation, kept exactly as written   
+            """
+            return x
+
         def nodoc_sync(x):
             return x
 
@@ -252,6 +298,10 @@ class C18(Prop):
             ("traced-sync", traced(meta_sync), meta_sync), ("traced-async", traced(meta_async), meta_async),
         ]
         metas += [
+            ("cache-multiline", cache(multiline_sync), multiline_sync), ("retry-multiline", retry(multiline_async), multiline_async),
+            ("throttle-multiline", throttle(multiline_async), multiline_async), ("timeout-multiline", timeout(1)(multiline_async), multiline_async),
+            ("traced-multiline", traced(multiline_sync), multiline_sync), ("asynchronous-multiline", asynchronous(multiline_sync), multiline_sync),
+            ("wrap_async-multiline", wrap_async(multiline_sync), multiline_sync),
             ("cache-nodoc", cache(nodoc_sync), nodoc_sync), ("cache-async-nodoc", cache(nodoc_async), nodoc_async),
             ("retry-nodoc", retry(nodoc_async), nodoc_async), ("throttle-nodoc", throttle(nodoc_async), nodoc_async),
             ("timeout-nodoc", timeout(1)(nodoc_async), nodoc_async), ("asynchronous-nodoc", asynchronous(nodoc_sync), nodoc_sync),
@@ -359,6 +409,10 @@ class C18(Prop):
                     r, r2 = await asyncio.gather(c1, c2, return_exceptions=True)
                     if isinstance(r, BaseException):
                         raise r
+                elif inherit:
+                    await super(type(first_host), first_host).m(*call_args, **call_kwargs)  # the parent's implementation, legally
+                    seen["override_before"] = seen.get("override", 0)
+                    r = await first_host.m(*call_args, **call_kwargs)  # must be the override again
                 else:
                     r = await wrapped(*call_args, **call_kwargs)
             except SimStop:
@@ -446,13 +500,25 @@ class C18(Prop):
             sim.fail_post("exception-chain", f"{kind}: the raised exception arrived with __cause__={out['obj'].__cause__!r} "
                           f"(function raised it `from` {cause_obj!r})", kind=kind)
             return
-        if seen["calls"] != 1 + int(second_instance):
+        if inherit and not raises:
+            if seen.get("override_before", 0) != 0 or seen.get("override", 0) != 1:
+                sim.fail_post("override-bypassed", f"{kind}: a subclass overrides the method; after super().m(...) the call self.m(...) ran the "
+                              f"override {seen.get('override', 0)} time(s) (and super() ran it {seen.get('override_before', 0)} time(s))", kind=kind)
+                return
+        if seen["calls"] != 1 + int(second_instance) + int(inherit and not raises):
             sim.fail_post("call-count", f"{kind}: function body ran {seen['calls']} times", kind=kind)
             return
         if second_instance:
             if seen["receivers"] != {"first": "first", "second": "second"}:
                 sim.fail_post("wrong-receiver", f"{kind}: two instances called their method concurrently; the calls ran on receivers "
                               f"{seen['receivers']} (call -> receiver)", kind=kind)
+                return
+        if completions and not second_loop:
+            got_n = sum(x.n for x in completions[0].metrics(merge=lambda cur, new: new if not isinstance(new, BodyMetric) or not isinstance(cur, BodyMetric)
+                                                            else BodyMetric(n=cur.n + new.n)) if isinstance(x, BodyMetric))
+            if got_n != seen["calls"]:
+                sim.fail_post("metric-from-function-lost", f"{kind}: the function body recorded a metric {seen['calls']} time(s) (on "
+                              f"{'a worker thread' if uses_thread else 'the loop thread'}); the caller's scope tree holds {got_n}", kind=kind)
                 return
         if seen["args"] != (want_args[0], want_args[1]):
             sim.fail_post("arguments", f"{kind}: function received {seen['args']}, call was {call_args} {call_kwargs} "
@@ -464,7 +530,7 @@ class C18(Prop):
                 sim.fail_post("ran-on-loop-thread", f"{kind}: the function ran on the event-loop thread", kind=kind)
                 return
             want_ex = explicit_ex if "executor" in kind else default_ex
-            if not jobs or any(j.executor is not want_ex for j in jobs) or len(jobs) != 1 + int(second_instance):
+            if not jobs or any(j.executor is not want_ex for j in jobs) or len(jobs) != 1 + int(second_instance) + int(inherit and not raises):
                 sim.fail_post("wrong-executor", f"{kind}: ran on {[j.executor.name for j in jobs]}, expected {want_ex.name}", kind=kind)
                 return
             if seen["parked"]:
